@@ -61,7 +61,8 @@ theorem C14_shape :
   · intro n tr los his a noise env h1 h2 h3 h4 h5
     have hs : (addVec a noise).length = n := by simp [addVec, List.length_zipWith, h3, h4]
     cases tr
-    · simp [maContRow, override, List.length_zipWith, h3, h5]
+    · simp only [maContRow, override, if_true, List.length_zipWith, clipVec, Bool.false_eq_true, if_false]
+      rw [zipWith3_length _ _ _ _ n h1 h2 h3, h5]; simp
     · simp only [maContRow, override, if_true, List.length_zipWith, clipVec]
       rw [zipWith3_length _ _ _ _ n h1 h2 hs, h5]; simp
   · intro n sq los his xs h1 h2 h3
@@ -198,33 +199,40 @@ theorem C14_rescale_covers_all_bounded :
 /-! ### multi-agent -/
 
 /-- MADDPG / MATD3 with the per-dimension clamp (`perDim = true`, the repaired code): in training
-    mode every dimension ends inside its own bounds whatever the actor output and noise; in
-    evaluation mode it is the (rescaled, in-bounds) actor output; an env-defined action inside the
-    bounds overrides it and is returned unchanged -/
+    *and* evaluation mode every dimension ends inside its own bounds whatever the actor output (also
+    that of a user-supplied network that does not rescale) and the noise; an env-defined action
+    inside the bounds overrides it and is returned unchanged; an actor output that already lies
+    inside the bounds is returned unchanged in evaluation mode -/
 theorem C14_ma_in_bounds (tr : Bool) (los his a noise : List Rat) (env : List (Option Rat))
     (i : Nat) (lo hi x nz : Rat) (e : Option Rat)
     (hlo : los[i]? = some lo) (hhi : his[i]? = some hi) (hx : a[i]? = some x)
     (hn : noise[i]? = some nz) (he : env[i]? = some e) (hle : lo ≤ hi)
-    (hactor : tr = false → lo ≤ x ∧ x ≤ hi)
     (henv : ∀ v, e = some v → lo ≤ v ∧ v ≤ hi) :
     ∃ y, (maContRow true tr los his a noise env)[i]? = some y ∧ lo ≤ y ∧ y ≤ hi ∧
-      (∀ v, e = some v → y = v) := by
+      (∀ v, e = some v → y = v) ∧
+      (tr = false → e = none → lo ≤ x → x ≤ hi → y = x) := by
   have key : ∀ (xs : List Rat) (z : Rat), xs[i]? = some z → lo ≤ z → z ≤ hi →
-      ∃ y, (override xs env)[i]? = some y ∧ lo ≤ y ∧ y ≤ hi ∧ (∀ v, e = some v → y = v) := by
+      ∃ y, (override xs env)[i]? = some y ∧ lo ≤ y ∧ y ≤ hi ∧ (∀ v, e = some v → y = v) ∧
+        (e = none → y = z) := by
     intro xs z hz h1 h2
     refine ⟨e.getD z, override_getElem? xs env i z e hz he, ?_⟩
     cases e with
-    | none => exact ⟨h1, h2, by intro v hv; simp at hv⟩
+    | none => exact ⟨h1, h2, by intro v hv; simp at hv, by intro _; rfl⟩
     | some v =>
       obtain ⟨b1, b2⟩ := henv v rfl
-      exact ⟨b1, b2, by intro w hw; simp at hw; simp [hw]⟩
+      exact ⟨b1, b2, by intro w hw; simp at hw; simp [hw], by intro h; simp at h⟩
   cases tr
-  · obtain ⟨h1, h2⟩ := hactor rfl
-    simpa [maContRow] using key a x hx h1 h2
+  · have hc := zipWith3_getElem? clip los his a i lo hi x hlo hhi hx
+    obtain ⟨b1, b2⟩ := clip_bounds lo hi x hle
+    obtain ⟨y, hy, c1, c2, c3, c4⟩ := key _ _ hc b1 b2
+    refine ⟨y, by simpa [maContRow, clipVec] using hy, c1, c2, c3, ?_⟩
+    intro _ hnone h1 h2
+    rw [c4 hnone, clip_id lo hi x h1 h2]
   · have hc := zipWith3_getElem? clip los his (addVec a noise) i lo hi (x + nz) hlo hhi
       (addVec_getElem? _ _ i x nz hx hn)
     obtain ⟨b1, b2⟩ := clip_bounds lo hi (x + nz) hle
-    simpa [maContRow, clipVec] using key _ _ hc b1 b2
+    obtain ⟨y, hy, c1, c2, c3, -⟩ := key _ _ hc b1 b2
+    exact ⟨y, by simpa [maContRow, clipVec] using hy, c1, c2, c3, by intro h; simp at h⟩
 
 /-- discrete MADDPG / MATD3: the returned index is the env-defined one where the environment
     defines it, otherwise an allowed index under the agent's own mask (training or not, any noise) -/
@@ -276,7 +284,7 @@ theorem C14_agent_in_bounds (act : OutAct) (pmin pmax : Rat) (hact : prescaled a
   constructor
   · exact C14_clip_in_bounds tr los his _ noise i lo hi y0 nz hlo hhi hy0 hn hle
   · obtain ⟨y, hy, c1, c2, -⟩ := C14_ma_in_bounds tr los his (actorOut act los his h) noise env i lo hi y0 nz e
-      hlo hhi hy0 hn he hle (fun _ => ⟨b1, b2⟩) henv
+      hlo hhi hy0 hn he hle henv
     exact ⟨y, hy, c1, c2⟩
 
 /-! ### stochastic policies in evaluation mode -/
